@@ -45,6 +45,8 @@ type board struct {
 	name  []byte // ≤ nameLen bytes, zero padded
 	title []byte // first 8 bytes of Title
 	grp   bool
+	gid   int // Gid: the class the board belongs to
+	cc    int // ChildCount as stored in the record
 }
 
 // ---- token syntax (the Lean driver implements the same rules) ---------------------------
@@ -108,7 +110,7 @@ func parseBoards(s string) ([]board, bool) {
 	var out []board
 	for _, f := range strings.Split(s, ",") {
 		p := strings.Split(f, ":")
-		if len(p) != 3 || (p[2] != "0" && p[2] != "1") {
+		if (len(p) != 3 && len(p) != 5) || (p[2] != "0" && p[2] != "1") {
 			return nil, false
 		}
 		n, ok1 := parseHex(p[0])
@@ -116,7 +118,16 @@ func parseBoards(s string) ([]board, bool) {
 		if !ok1 || !ok2 {
 			return nil, false
 		}
-		out = append(out, board{n, t, p[2] == "1"})
+		gid, cc := 0, 0
+		if len(p) == 5 {
+			var ok3, ok4 bool
+			gid, ok3 = parseNat(p[3])
+			cc, ok4 = parseNat(p[4])
+			if !ok3 || !ok4 {
+				return nil, false
+			}
+		}
+		out = append(out, board{n, t, p[2] == "1", gid, cc})
 	}
 	return out, true
 }
@@ -204,6 +215,8 @@ func setTable(bs []board) string {
 		if b.grp {
 			h.BrdAttr = ptttype.BRD_GROUPBOARD
 		}
+		h.Gid = ptttype.Bid(b.gid)
+		h.ChildCount = int32(b.cc)
 		if err := binary.Write(&buf, binary.LittleEndian, h); err != nil {
 			panic(err)
 		}
@@ -226,7 +239,7 @@ func setTable(bs []board) string {
 		if cur.grp[i] {
 			g = 1
 		}
-		fmt.Fprintf(&sb, "%s:%s:%d", hx.Hex(cur.name[i]), hx.Hex(cur.title[i][:title8]), g)
+		fmt.Fprintf(&sb, "%s:%s:%d:%d:%d", hx.Hex(cur.name[i]), hx.Hex(cur.title[i][:title8]), g, cur.gid[i], cur.cc[i])
 	}
 	for k := 0; k < 2; k++ {
 		sb.WriteByte(' ')
@@ -251,6 +264,8 @@ func errStr(err error) string {
 	switch err {
 	case bbs.ErrInvalidParams:
 		return "invalid-params"
+	case ptttype.ErrInvalidBid:
+		return "invalid-bid"
 	}
 	return "err:" + strings.ReplaceAll(err.Error(), " ", "_")
 }
@@ -327,6 +342,40 @@ func walk(auto bool, by ptttype.BSortBy, isAsc bool, n int, kw []byte) (pages []
 		cstr = r.next
 	}
 	return pages, "TIMEOUT"
+}
+
+// loadFull: one page of bbs.LoadFullClassBoards.
+func loadFull(startBid, n int) (bids []int, next int, out string) {
+	out = hx.CallSync(func() string {
+		sums, nextBid, err := bbs.LoadFullClassBoards(sysop, ptttype.Bid(startBid), n)
+		if err != nil {
+			return errStr(err)
+		}
+		for _, s := range sums {
+			bids = append(bids, int(s.Bid))
+		}
+		next = int(nextBid)
+		return ""
+	})
+	return bids, next, out
+}
+
+// walkFull: the client loop over next_bid (0 = end); at most n+2 pages like the model's fuel.
+func walkFull(n int) string {
+	start := 1
+	var pages []string
+	for k := 0; k < cur.n+2; k++ {
+		bids, next, out := loadFull(start, n)
+		if out != "" {
+			return out
+		}
+		pages = append(pages, showBids(bids))
+		if next == 0 {
+			return "ok " + strings.Join(pages, "/")
+		}
+		start = next
+	}
+	return "TIMEOUT"
 }
 
 // do runs one op line on the real code, records it for the model and judges it.
@@ -417,6 +466,53 @@ func do(line string) {
 			return strconv.Itoa(int(idx))
 		})
 		judgeAuto(line, out, isAsc, kw)
+	case ws[0] == "fpage" && len(ws) == 3:
+		b, ok1 := parseInt(ws[1])
+		n, ok2 := parseInt(ws[2])
+		if !ok1 || !ok2 {
+			bad()
+			return
+		}
+		bids, next, out := loadFull(b, n)
+		if out == "" {
+			out = "ok " + showBids(bids) + " next=" + strconv.Itoa(next)
+		}
+		judgeFullPage(line, out, b, n)
+	case ws[0] == "fwalk" && len(ws) == 2:
+		n, ok := parseInt(ws[1])
+		if !ok {
+			bad()
+			return
+		}
+		judgeFullWalk(line, walkFull(n), n)
+	case ws[0] == "children" && len(ws) == 3:
+		c, ok1 := parseInt(ws[1])
+		by, ok2 := parseBy(ws[2])
+		if !ok1 || !ok2 {
+			bad()
+			return
+		}
+		if c > cur.n && c <= maxBoard {
+			// a slot beyond BNumber holds whatever an earlier, larger table left there: not called
+			op(line, "beyond-table", "children:beyond-table", false)
+			return
+		}
+		ccNow := 0 // the ChildCount in shared memory now: LoadClassBoards itself zeroes it ("dirty fix")
+		if c >= 1 && c <= cur.n {
+			ccNow = int(cache.Shm.Shm.BCache[c-1].ChildCount)
+		}
+		out := hx.CallSync(func() string {
+			sums, err := bbs.LoadClassBoards(sysop, ptttype.Bid(c), by)
+			if err != nil {
+				return errStr(err)
+			}
+			var bids []int
+			for _, s := range sums {
+				bids = append(bids, int(s.Bid))
+			}
+			return "ok " + showBids(bids)
+		})
+		judgeChildren(line, out, c, by, ccNow)
 	case (ws[0] == "dpage" && len(ws) == 5) || (ws[0] == "dwalk" && len(ws) == 4):
 		detailsMode = true
 		defer func() { detailsMode = false }()
